@@ -479,7 +479,7 @@ pub fn run(args: &Args) -> i32 {
     run.put("programs", json!(progs.len()));
     run.set_rule(match prop.as_str() {
         "C21" => "programs of families F1 (conjunctive clauses with constants, wildcards, repeated variables), F2 (union heads), F3 (stratified negation), F4 (recursion, recursion + negation), F8 (repeated sub-plans) registered as persistent rules x small EDBs; `.why ?rel(..)` through the Handler for every derived relation; EVERY returned proof tree is checked by an independent proof checker: root concludes an answer tuple; every rule node's rule_id is a clause of the program, its head under the bindings is the conclusion, its positive body atoms are matched one-to-one by children's conclusions, negated atoms by negation leaves whose instance has no matching fact in the reference model, comparisons hold, fact leaves are stored facts. Truncated roots are C22's business. non-trivial = distinct (program, EDB, relation) with at least one answer",
-        "C22" => "same runs as C21: for every tuple that `?rel(..)` returns, `.why` must return a tree whose root concludes that tuple, that contains no truncated node (all reference derivations here are far below the depth limit of 50) and that passes the C21 checker. non-trivial = distinct (program, EDB, relation) with at least one answer",
+        "C22" => "same runs as C21: for every tuple that `?rel(..)` returns, `.why` must return a tree whose root concludes that tuple, that contains no truncated node (all reference derivations here are far below the depth limit of 50) and that passes the C21 checker. Wide leg: four programs (left/right recursion, two-hop join, two-hop join with negation) over a hub with max_proofs_per_tuple + 2 spokes, one target each, queried with the target free and bound (`?r(1, t)`, `?r(X, t)`): every answer needs a complete proof that is a rule application, not a bare fact leaf. non-trivial = distinct (program, EDB, relation) with at least one answer",
         _ => "programs of F1, F2, F3, F4, F8 as persistent rules x small EDBs x EVERY candidate tuple over the value domain for every derived relation: `.why_not rel(t)`; if t is not in the reference model every clause of rel must be reported with a blocker that genuinely holds (head does not unify / the named pattern is an instance of the named body atom under the head bindings and real matches of the earlier atoms, and no fact of the model matches it / no valuation satisfies the comparisons / the negated atom's reported matching tuple is in the model); if t IS in the model the answer must not report every clause of rel as blocked. non-trivial = distinct (program, EDB, relation, tuple)",
     });
     run.assume("reference model R1; mutual-recursion programs are excluded (their answers are C01's known finding)");
@@ -581,5 +581,86 @@ pub fn run(args: &Args) -> i32 {
             }
         }
     });
+    if prop != "C23" {
+        wide_leg(&run, &prop);
+    }
     run.finish()
+}
+
+/// C21/C22, wide leg: one input per limit visible in the prover. Backward chaining keeps at most
+/// `max_proofs_per_tuple` alternatives per tuple; a hub with more out-edges than that, each leading to its own
+/// target, makes every target's only derivation pass through a match beyond the limit if alternatives are ever
+/// cut early. Queries bind the target (the magic-sets path) and leave it free.
+fn wide_leg(run: &Run, prop: &str) {
+    let k = inputlayer::provenance::ProofConfig::default().max_proofs_per_tuple as i64 + 2;
+    let cl = |rel: &str, head: Vec<Term>, body: Vec<Lit>| Clause { rel: rel.into(), head: head.into_iter().map(HeadArg::T).collect(), body };
+    let at = |rel: &str, args: Vec<Term>| Lit::Pos(Atom { rel: rel.into(), args });
+    let progs: Vec<Program> = vec![
+        Program { clauses: vec![cl("r", vec![Var(0), Var(1)], vec![at("e", vec![Var(0), Var(1)])]), cl("r", vec![Var(0), Var(2)], vec![at("r", vec![Var(0), Var(1)]), at("e", vec![Var(1), Var(2)])])] },
+        Program { clauses: vec![cl("r", vec![Var(0), Var(1)], vec![at("e", vec![Var(0), Var(1)])]), cl("r", vec![Var(0), Var(2)], vec![at("e", vec![Var(0), Var(1)]), at("r", vec![Var(1), Var(2)])])] },
+        Program { clauses: vec![cl("h", vec![Var(0), Var(2)], vec![at("e", vec![Var(0), Var(1)]), at("e", vec![Var(1), Var(2)])])] },
+        Program { clauses: vec![cl("h", vec![Var(0), Var(2)], vec![at("e", vec![Var(0), Var(1)]), at("e", vec![Var(1), Var(2)]), Lit::Neg(Atom { rel: "n".into(), args: vec![Var(2)] })])] },
+    ];
+    // hub 1 -> spokes 2..k+1 -> targets 101..100+k ; n marks one target
+    let mut edb = Db::new();
+    let mut e = BTreeSet::new();
+    for i in 0..k {
+        e.insert(vec![1, 2 + i]);
+        e.insert(vec![2 + i, 101 + i]);
+    }
+    edb.insert("e".into(), e);
+    edb.insert("n".into(), [vec![101]].into_iter().collect());
+    let mut cases = 0u64;
+    for p in &progs {
+        let Ok(model) = eval_int_model(p, &edb) else { continue };
+        let Ok(env) = setup(p, &edb) else { continue };
+        let ctx = Ctx { prog: p, edb: &edb, model: model.clone() };
+        let rel = p.clauses[0].rel.clone();
+        let want: BTreeSet<Vec<i64>> = model.get(&rel).cloned().unwrap_or_default();
+        let mut queries: Vec<(String, BTreeSet<Vec<i64>>)> = vec![(format!(".why ?{rel}(Q0, Q1)"), want.clone())];
+        for t in want.iter().filter(|t| t[0] == 1 && t[1] > 100) {
+            queries.push((format!(".why ?{rel}(1, {})", t[1]), [t.clone()].into_iter().collect()));
+            queries.push((format!(".why ?{rel}(Q0, {})", t[1]), want.iter().filter(|w| w[1] == t[1]).cloned().collect()));
+        }
+        for (q, expect) in queries {
+            cases += 1;
+            run.evaluations.fetch_add(1, std::sync::atomic::Ordering::Relaxed);
+            let case = json!({"leg": "wide", "program": p.text(), "edb": fmt_db(&edb), "query": q});
+            let res = env.query_program(Some("A"), &q);
+            let Ok(qr) = res else {
+                run.violation("wide:why_request_failed", case, format!("program [{}] hub EDB (hub 1, {k} spokes, one target each): {q} failed: {:?}", p.text().replace('\n', " ; "), res.err()));
+                // a failing request usually means the prover ran into the query timeout (30 s): one per program is enough
+                break;
+            };
+            let trees = qr.proof_trees.clone().unwrap_or_default();
+            let mut explained: BTreeSet<Vec<i64>> = BTreeSet::new();
+            for tree in &trees {
+                let Some(root) = tree.roots.first().and_then(|r| tree.nodes.get(r)) else { continue };
+                let rargs: Vec<i64> = root.conclusion.args.iter().filter_map(vi).collect();
+                if tree.has_truncated() {
+                    continue;
+                }
+                match check_node(&ctx, tree, &tree.roots[0], 0) {
+                    Ok(()) => {
+                        // a bare fact leaf for a derived tuple is not a derivation
+                        if root.children.is_empty() && root.rule_id.is_none() {
+                            continue;
+                        }
+                        explained.insert(rargs);
+                    }
+                    Err((c, d)) => {
+                        if prop == "C21" {
+                            run.violation(&format!("wide:{c}"), case.clone(), format!("program [{}] hub EDB ({k} spokes): {q}: proof of {rel}{rargs:?}: {d}", p.text().replace('\n', " ; ")));
+                        }
+                    }
+                }
+            }
+            if prop == "C22" {
+                if let Some(missing) = expect.iter().find(|t| !explained.contains(*t)) {
+                    run.violation("wide:answer_without_complete_proof", case, format!("program [{}] hub EDB (hub 1, {k} spokes, one target each): {q} must explain {} answers; {rel}{missing:?} has no complete valid proof among {} trees", p.text().replace('\n', " ; "), expect.len(), trees.len()));
+                }
+            }
+        }
+    }
+    run.put("wide_leg_queries", json!(cases));
 }
